@@ -474,7 +474,8 @@ func (i *interpreter) chanSelect(cases []selCase, blocking bool) (int, value, bo
 // ---------- mutexes, wait groups ----------
 
 type mutexState struct {
-	vc      vclock
+	vc      vclock // published by Unlock; learnt by Lock and RLock
+	rvc     vclock // published by RUnlock; learnt by Lock only (readers are not ordered among themselves)
 	locked  bool
 	readers int
 	waiters []*gthread
@@ -517,6 +518,7 @@ func (i *interpreter) mutexLock(p value, read bool) {
 			m.locked = true
 			if i.raceID != "" {
 				i.acquire(&m.vc)
+				i.acquire(&m.rvc)
 			}
 			return
 		}
@@ -539,7 +541,11 @@ func (i *interpreter) mutexUnlock(p value, read bool) {
 		m.locked = false
 	}
 	if i.raceID != "" {
-		i.release(&m.vc)
+		if read {
+			i.release(&m.rvc)
+		} else {
+			i.release(&m.vc)
+		}
 	}
 	i.wakeAll(m)
 }
